@@ -127,7 +127,7 @@ def main(p):
                 return fail(cell, client, hist, 'timeout-later' + what, f'attempt {i} timeout {e["timeout"]} exceeds {limit} (remaining {remaining}, entry {tmo})')
 
     def overrides(cell):
-        if cell['id'] not in ('single/UNAVAILABLE', 'unnamed/Ret', 'policy/typical', 'timeout=None/policy=True', 'stream/policy+timeout', 'unnamed/stream'):
+        if cell['id'].replace('doubled-option/', '') not in ('single/UNAVAILABLE', 'unnamed/Ret', 'policy/typical', 'timeout=None/policy=True', 'stream/policy+timeout', 'unnamed/stream'):
             return
         custom = dict(initialBackoff='1s', maxBackoff='1s', backoffMultiplier=1)
         yield 'retry=None', dict(retry=None), ['UNAVAILABLE', 'OK'], dict(retry_codes=[], policy=None)
